@@ -315,11 +315,16 @@ def check_c04(tier, seed):
     clidir = os.path.join(sc.dir, "clisamples")
     os.makedirs(clidir)
 
+    skipped_docs = []
+
     def shard(i):
         args = ["c04", "-tier", tier, "-corpus", sc.corpus_path, "-seed", str(seed), "-shard", str(i), "-nshard", str(nshard), "-clisamples", clidir]
-        rc, lines, err = vlib.run_chunk(harness, args, {"GOMAXPROCS": "2"}, 3600 if tier == "thorough" else 900)
+        if tier == "thorough":
+            args += ["-budget", "1500"]  # documents are taken smallest first; what did not fit is reported in the evidence
+        rc, lines, err = vlib.run_chunk(harness, args, {"GOMAXPROCS": "2"}, 7200 if tier == "thorough" else 900)
         if not any("shard_done" in l for l in lines):
             raise HarnessError("c04 shard %d ended unexpectedly (rc=%d): %s" % (i, rc, err[-3000:]))
+        skipped_docs.append(sum(l.get("documents_skipped_for_budget", 0) for l in lines if "shard_done" in l))
         return [l for l in lines if "profile" in l]
 
     docs = []
@@ -392,7 +397,7 @@ def check_c04(tier, seed):
                  "Oracle computed by the driver: unreadable(T) = json.Decoder cannot decode a first value or json-gold Flatten rejects it; then every entry point must return err != nil and an empty report, no panic; "
                  "the CLI must exit non-zero without a report on stdout and leave OUT untouched. Non-trivial and distinct = distinct faulted texts that are unreadable; readable results of a fault are only counted as absorbed."),
         "samples": [{"profile": d["profile"], "data": d["data"], "len": d["len"], "all_offsets": d["all_offsets"], "injected": d["injected"], "unreadable": d["unreadable"], "fault_free": d["fault_free"], "examples": d.get("samples")} for d in docs[:3]],
-        "documents": len(docs), "documents_with_every_offset": sum(1 for d in docs if d["all_offsets"]),
+        "documents": len(docs), "documents_with_every_offset": sum(1 for d in docs if d["all_offsets"]), "documents_skipped_for_time_budget": sum(skipped_docs),
         "exhaustive": False,
         "fault_kinds_fired": inj, "faults_that_made_the_document_unreadable": unr, "faults_absorbed_still_readable": absb, "undecided_jsonld_panicked": und,
         "library_calls_on_unreadable_texts": calls, "library_violations_total": n_lib_viol,
@@ -668,7 +673,7 @@ def check_c11(tier, seed):
     testbin = sc.build("./simbubble", "simbubble.test", go=vlib.GO126, test=True)
     fails = c11.failures(sc)
     rd = lambda p: open(os.path.join(sc.src, p)).read()
-    job = {"seed": seed, "k": 1 if tier == "quick" else 12, "profile": rd("test/data/integration/profile1/profile.yaml"), "data": rd("test/data/integration/profile1/negative.data.jsonld"),
+    job = {"seed": seed, "k": 1 if tier == "quick" else 30, "profile": rd("test/data/integration/profile1/profile.yaml"), "data": rd("test/data/integration/profile1/negative.data.jsonld"),
            "entries": c11.ENTRIES, "failures": fails, "caps": c11.CAPS, "consumers": c11.CONSUMERS,
            "event_names": sc.census["event_types"], "operations": sc.census["operations"]}
     results = c11.run_bubbles(sc, testbin, job, vlib.NCPU)
